@@ -1,5 +1,6 @@
 //! bvengine — process-level checks and orchestration of the in-process worker.
 
+mod c01;
 mod c02;
 mod c03;
 mod c04;
@@ -34,6 +35,7 @@ fn usage() -> ! {
 /// replay dispatch: (layer, case) -> (rendered, verdict)
 pub fn replay_dispatch(prop: &str, layer: &str, case: &serde_json::Value) -> Result<(String, Verdict), String> {
     match prop {
+        "C01" => c01::replay(layer, case),
         "C02" => c02::replay(layer, case),
         "C03" => c03::replay(layer, case),
         "C04" => c04::replay(layer, case),
@@ -143,6 +145,7 @@ fn main() {
     let mut ctx = Ctx::new(&prop, tier, seed);
     run.apply_known(&mut ctx, &replay_path);
     match prop.as_str() {
+        "C01" => c01::run(&mut run, &ctx),
         "C02" => c02::run(&mut run, &ctx),
         "C03" => c03::run(&mut run, &ctx),
         "C04" => c04::run(&mut run, &ctx),
